@@ -22,14 +22,15 @@
     [C05_setup_kernel_is_translation]: for every kernel offset, section table, state and allocator behaviour the
     regenerated function ends in the model's machine state with the model's error ([T.err_of]: nil iff 0), having made
     exactly the model's seam calls in the model's order; a stray access of the model is a panic.  Hypotheses: 64-bit
-    offset, addresses, sizes and reservation cursor; fuel above the page count of every section that is VISITED - the
-    non-empty ones, [K.nonempty secs] - and of the reserved range ([K.fuel_ok]: fuel is an artefact of the translation
+    offset, addresses, sizes and reservation cursor; fuel above the page count of every section that is MAPPED - non-empty
+    and at or above the offset, [K.mapped off secs] - and of the reserved range ([K.fuel_ok]: fuel is an artefact of the translation
     of loops).  Empty entries, in particular the all-zero null section every ELF section table starts with (whose page
     count `size - 1` wraps to 2^52), are never delivered by the visitor and need no fuel, so the hypothesis is
     satisfiable for real tables with small fuel (example C05_null_section_table_nonvacuous).
-    Note (audit A): [K.fuel_ok] asks fuel above the page count of EVERY non-empty section, including the sections the closure
-    skips (address below the kernel offset, e.g. non-alloc .symtab / .debug sections at address 0, or any section after an
-    error) - more than the function needs, but always satisfiable (example C05_setup_kernel_is_translation_real_input).
+    Repaired after audit A: [K.fuel_ok] ranges over the sections whose pages are actually MAPPED ([K.mapped off secs]:
+    non-empty AND address >= kernel offset); the sections the closure skips at `secAddress < kernelPageOffset` (the large
+    non-alloc .symtab / .debug sections of a real ELF table sit at address 0) need no fuel, so a real table satisfies the
+    hypothesis with the small fuel the function actually needs (example C05_setup_kernel_is_translation_real_input).
     The seam oracles are FIXED to the model's pdt_init / pdt_map / pdt_activate / translate: the theorem does not range
     over arbitrary seam behaviours, only over allocator oracles carried in the state.
     Statements only; proofs are in Vmm/KernelTrans.v. *)
@@ -44,7 +45,7 @@ Local Open Scope N_scope.
 
 Theorem C05_setup_kernel_is_translation :
   forall (off : N) (secs : list section) (s : st) (tr0 : list gcall) (fuel : nat),
-    off < two64 -> last s < two64 -> Forall K.sec_ok secs -> K.fuel_ok fuel secs s ->
+    off < two64 -> last s < two64 -> Forall K.sec_ok secs -> K.fuel_ok fuel off secs s ->
     go_vmm_setupPDTForKernel fuel (mk_go_vmm_world tr0 s) off
       K.o_kactivate K.o_kinit K.o_kmap M.o_alloc K.o_translate (K.nonempty secs) =
     match K.setup_kernel_tr off secs s tr0 with
@@ -66,7 +67,7 @@ Print Assumptions C05_setup_kernel_tr_is_model.
 (** the two together, without the trace: the regenerated function computes [setup_kernel] *)
 Theorem C05_setup_kernel_is_translation_state :
   forall (off : N) (secs : list section) (s : st) (tr0 : list gcall) (fuel : nat),
-    off < two64 -> last s < two64 -> Forall K.sec_ok secs -> K.fuel_ok fuel secs s ->
+    off < two64 -> last s < two64 -> Forall K.sec_ok secs -> K.fuel_ok fuel off secs s ->
     match go_vmm_setupPDTForKernel fuel (mk_go_vmm_world tr0 s) off
             K.o_kactivate K.o_kinit K.o_kmap M.o_alloc K.o_translate (K.nonempty secs) with
     | GOk (w, e) => GOk (f_world_mem w, e)
